@@ -897,12 +897,320 @@ def countdown_loops(f):
     return n
 
 
+def _is_dec(st, v):
+    """the statement decrements the int variable v by one"""
+    if isinstance(st, C.CAssign) and isinstance(st.target, ast.Name) and st.target.id == v:
+        if st.op == '-=' and C.unparse(st.value) == '1':
+            return True
+        if st.op == '=' and C.unparse(st.value).replace(' ', '') in ('%s-1' % v,):
+            return True
+    if isinstance(st, C.CExpr) and _is_call(st.expr, ('postdec', 'predec')) and isinstance(st.expr.args[0], ast.Name) and st.expr.args[0].id == v:
+        return True
+    return False
+
+
+def countdown_while(f):
+    """v = E;  while (v > L) { v--; body }   is   for (v = E - 1; v >= L; v--) body       (the body sees E-1, E-2, ..., L)
+       v = E;  while (v >= L) { body; v-- }  is   for (v = E; v >= L; v--) body
+    for an int variable v that the body does not otherwise assign, whose initialisation directly precedes the loop"""
+    ints = {pn for pt, pn in f.params if '*' not in pt and C._base_type(pt) == 'int'} | {st.name for st in f.walk() if isinstance(st, C.CDecl) and not st.pointer and not st.array and C._base_type(st.ctype) == 'int'}
+    n = 0
+
+    def rec(stmts):
+        nonlocal n
+        out = []
+        for st in stmts:
+            if isinstance(st, (C.CFor, C.CWhile)):
+                st.body = rec(st.body)
+            elif isinstance(st, C.CIf):
+                st.body, st.orelse = rec(st.body), rec(st.orelse)
+            c = st.cond if isinstance(st, C.CWhile) else None
+            if c is not None and not (getattr(st, 'steps', None) or []) and isinstance(c, ast.Compare) and len(c.ops) == 1 and isinstance(c.ops[0], (ast.Gt, ast.GtE)) and isinstance(c.left, ast.Name) and \
+                    c.left.id in ints and st.body and out and isinstance(out[-1], C.CAssign) and out[-1].op == '=' and isinstance(out[-1].target, ast.Name) and out[-1].target.id == c.left.id:
+                v = c.left.id
+                first, last = _is_dec(st.body[0], v), _is_dec(st.body[-1], v)
+                body = st.body[1:] if first else st.body[:-1] if last else None
+                bound_names = {x.id for x in ast.walk(c.comparators[0]) if isinstance(x, ast.Name)}
+                if body is not None and len(st.body) >= 2 and not (first and last) and v not in C._assigned_in(body) and not (bound_names & C._assigned_in(st.body)) and \
+                        not any(isinstance(x, C.CJump) for x in _all(body)):
+                    init = out.pop()
+                    start = init.value if last else ast.BinOp(left=init.value, op=ast.Sub(), right=ast.Constant(value=1))
+                    # the loop runs while v > L (decrement first: v - 1 >= L) or v >= L (decrement last)
+                    if first:
+                        low = c.comparators[0] if isinstance(c.ops[0], ast.Gt) else ast.BinOp(left=c.comparators[0], op=ast.Sub(), right=ast.Constant(value=1))
+                    else:
+                        low = c.comparators[0] if isinstance(c.ops[0], ast.GtE) else ast.BinOp(left=c.comparators[0], op=ast.Add(), right=ast.Constant(value=1))
+                    loop = C.CFor(C.CAssign(ast.Name(id=v, ctx=ast.Load()), '=', start, init.line), ast.Compare(left=ast.Name(id=v, ctx=ast.Load()), ops=[ast.GtE()], comparators=[low]),
+                                  C.CAssign(ast.Name(id=v, ctx=ast.Load()), '-=', ast.Constant(value=1), st.line), body, st.line)
+                    out.append(loop)
+                    n += 1
+                    continue
+            out.append(st)
+        return out
+    f.body = rec(f.body)
+    return n
+
+
+def forward_scalars(f, recorded_locals):
+    """A floating-point local s that the confirmed form of the function does not have and that is stored into an array cell right
+    after every one of its assignments ( s = E; A[i] = s; ) is that cell:  A[i] = E,  later reads of s in the same block are A[i], and
+    a read of s inside E itself - the value of the previous iteration of a unit-step counted loop whose index is i = v + c - is the
+    neighbouring cell A[i - 1] (counting up) or A[i + 1] (counting down), provided s enters the loop holding exactly that cell (the
+    store that precedes the loop, or the last cell of the preceding loop).  Undoes "carry the last entry in a register"."""
+    if not recorded_locals:
+        return 0
+    rec = set(recorded_locals)
+    done = 0
+    for _round in range(6):
+        cands = [st.name for st in f.walk() if isinstance(st, C.CDecl) and not st.pointer and not st.array and st.name not in rec and C._base_type(st.ctype) == 'double']
+        progressed = False
+        for s in cands:
+            if _forward_one(f, s):
+                done += 1
+                progressed = True
+                break
+        if not progressed:
+            break
+    return done
+
+
+def _forward_one(f, s):
+    # every definition of s with the block it lies in
+    sites = []          # (block, index, value expr holder (stmt), enclosing loops)
+    ok = True
+
+    def scan(stmts, loops):
+        nonlocal ok
+        for i, st in enumerate(stmts):
+            is_def = (isinstance(st, C.CDecl) and st.name == s and st.init is not None) or (isinstance(st, C.CAssign) and isinstance(st.target, ast.Name) and st.target.id == s)
+            if is_def:
+                if isinstance(st, C.CAssign) and st.op != '=':
+                    ok = False
+                sites.append((stmts, i, st, list(loops)))
+            if isinstance(st, C.CFor):
+                for part in (st.init, st.step):
+                    if isinstance(part, C.CAssign) and isinstance(part.target, ast.Name) and part.target.id == s:
+                        ok = False
+                scan(st.body, loops + [st])
+            elif isinstance(st, C.CWhile):
+                if any(isinstance(x, ast.Name) and x.id == s for b in _all(st.body) for e in _stmt_exprs(b) for x in ast.walk(e)):
+                    ok = False
+            elif isinstance(st, C.CIf):
+                if any((isinstance(b, C.CAssign) and isinstance(b.target, ast.Name) and b.target.id == s) for b in _all(st.body + st.orelse)):
+                    ok = False
+    scan(f.body, [])
+    if not ok or not sites:
+        return False
+    # address taken / incremented: not a plain value
+    for st in f.walk():
+        for e in _stmt_exprs(st):
+            for x in ast.walk(e):
+                if _is_call(x, ('addr', 'postinc', 'postdec')) and isinstance(x.args[0], ast.Name) and x.args[0].id == s:
+                    return False
+    arr = None
+    cells = []
+    for blk, i, st, loops in sites:
+        # declarations without initialiser between the definition and the store do nothing: moved in front of the definition
+        k_ = i + 1
+        while k_ < len(blk) and isinstance(blk[k_], C.CDecl) and blk[k_].init is None and not blk[k_].array_init:
+            k_ += 1
+        if k_ > i + 1:
+            moved = blk[i + 1:k_]
+            blk[i:k_] = moved + [st]
+            return _forward_one(f, s)
+        if i + 1 >= len(blk):
+            return False
+        nx = blk[i + 1]
+        if not (isinstance(nx, C.CAssign) and nx.op == '=' and isinstance(nx.target, ast.Subscript) and isinstance(nx.target.value, ast.Name) and isinstance(nx.value, ast.Name) and nx.value.id == s):
+            return False
+        if arr is None:
+            arr = nx.target.value.id
+        if nx.target.value.id != arr:
+            return False
+        cells.append(nx.target.slice)
+    # no other store into the array except the forwarding stores
+    fwd = {id(blk[i + 1]) for blk, i, st, loops in sites}
+    for st in f.walk():
+        if isinstance(st, C.CAssign) and isinstance(st.target, ast.Subscript) and isinstance(st.target.value, ast.Name) and st.target.value.id == arr and id(st) not in fwd:
+            return False
+        for e in _stmt_exprs(st):
+            for x in ast.walk(e):
+                if isinstance(x, ast.Call) and any(isinstance(a, ast.Name) and a.id == arr for a in x.args) and not _is_call(x, ('free',)):
+                    return False
+
+    def affine(idx, v):
+        """c with idx = v + c, or None"""
+        try:
+            r = Translator().tr(idx) - Rat.atom(v)
+        except AlgebraError:
+            return None
+        return None if v in r.atoms() else r
+
+    def loop_range(lp):
+        """(variable, direction, first value, last value) of a unit-step counted loop"""
+        if not (isinstance(lp.init, C.CAssign) and lp.init.op == '=' and isinstance(lp.init.target, ast.Name) and isinstance(lp.cond, ast.Compare) and len(lp.cond.ops) == 1 and
+                isinstance(lp.step, C.CAssign) and C.unparse(lp.step.target) == lp.init.target.id and C.unparse(lp.step.value) == '1' and C.unparse(lp.cond.left) == lp.init.target.id):
+            return None
+        v = lp.init.target.id
+        try:
+            a, b = Translator().tr(lp.init.value), Translator().tr(lp.cond.comparators[0])
+        except AlgebraError:
+            return None
+        op = lp.cond.ops[0]
+        if lp.step.op == '+=' and isinstance(op, (ast.Lt, ast.LtE)):
+            return v, 'up', a, (b - Rat.const(1)) if isinstance(op, ast.Lt) else b
+        if lp.step.op == '-=' and isinstance(op, (ast.Gt, ast.GtE)):
+            return v, 'down', a, (b + Rat.const(1)) if isinstance(op, ast.Gt) else b
+        return None
+    # what s holds after each site, as a cell of arr: for a top-level site the cell itself; for a site inside a loop the last cell
+    plan = []           # (site, carried replacement or None)
+    holds = None        # Rat index of the cell s holds at the current point of the top-level block (None: unknown)
+    top_sites = {id(st): k for k, (blk, i, st, loops) in enumerate(sites)}
+    for k, (blk, i, st, loops) in enumerate(sites):
+        if len(loops) > 1 or (loops and blk is not loops[0].body):
+            return False
+    # walk the top-level block in order
+    for j, st in enumerate(f.body):
+        if id(st) in top_sites:
+            k = top_sites[id(st)]
+            val = st.init if isinstance(st, C.CDecl) else st.value
+            if any(isinstance(x, ast.Name) and x.id == s for x in ast.walk(val)):
+                return False
+            try:
+                holds = Translator().tr(cells[k])
+            except AlgebraError:
+                return False
+            plan.append((k, None))
+            continue
+        if isinstance(st, C.CFor):
+            inner = [k for k, (blk, i, d, loops) in enumerate(sites) if loops and loops[0] is st]
+            reads_in = any(isinstance(x, ast.Name) and x.id == s for b in _all(st.body) for e in _stmt_exprs(b) for x in ast.walk(e))
+            if not inner:
+                if reads_in:
+                    return False
+                continue
+            if len(inner) != 1:
+                return False
+            k = inner[0]
+            lr = loop_range(st)
+            if lr is None:
+                return False
+            v, direction, first, last = lr
+            c = affine(cells[k], v)
+            if c is None:
+                return False
+            d = sites[k][2]
+            val = d.init if isinstance(d, C.CDecl) else d.value
+            carried = any(isinstance(x, ast.Name) and x.id == s for x in ast.walk(val))
+            # reads of s before the definition inside the body are carried reads too
+            blk, i = sites[k][0], sites[k][1]
+            early = any(isinstance(x, ast.Name) and x.id == s for b in _all(blk[:i]) for e in _stmt_exprs(b) for x in ast.walk(e))
+            if carried or early:
+                entry = first + c + (Rat.const(-1) if direction == 'up' else Rat.const(1))
+                if holds is None or not (holds - entry).is_zero():
+                    return False
+                plan.append((k, -1 if direction == 'up' else 1))
+            else:
+                plan.append((k, None))
+            holds = last + c           # with zero iterations last + c is the entry cell, which s then still holds (when it was carried)
+            if not (carried or early):
+                # with zero iterations s keeps its old value: unknown unless that is the same cell
+                holds = None if holds is None else holds
+            continue
+        # any other statement reading s is rewritten to the cell s holds; a statement that could change arr was excluded above
+    # ---- rewrite ----------------------------------------------------------------------------------------------------
+    def cell_expr(idx_ast, shift=0):
+        idx = C._clone(idx_ast)
+        if shift:
+            idx = ast.BinOp(left=idx, op=ast.Add() if shift > 0 else ast.Sub(), right=ast.Constant(value=abs(shift)))
+        return ast.Subscript(value=ast.Name(id=arr, ctx=ast.Load()), slice=idx, ctx=ast.Load())
+
+    class Sub(ast.NodeTransformer):
+        def __init__(self, repl):
+            self.repl = repl
+
+        def visit_Name(self, n):
+            return self.repl() if n.id == s else n
+
+    def replace_in(st, repl):
+        for holder, attr in _holders(st):
+            e = getattr(holder, attr)
+            if isinstance(e, ast.AST):
+                setattr(holder, attr, Sub(repl).visit(e))
+    current = None          # AST index of the cell s holds at top level
+    planned = dict(plan)
+    new_body = []
+    j = 0
+    body = f.body
+    while j < len(body):
+        st = body[j]
+        if id(st) in top_sites:
+            k = top_sites[id(st)]
+            store = body[j + 1]
+            store.value = st.init if isinstance(st, C.CDecl) else st.value
+            if isinstance(st, C.CDecl):
+                new_body.append(C.CDecl(st.ctype, st.name, st.pointer, None, st.line, st.array, st.array_init))
+            new_body.append(store)
+            current = (cells[k], 0)
+            j += 2
+            continue
+        if isinstance(st, C.CFor):
+            inner = [k for k, (blk, i, d, loops) in enumerate(sites) if loops and loops[0] is st]
+            if inner:
+                k = inner[0]
+                blk, i, d, loops = sites[k]
+                shift = planned.get(k)
+                for b in blk[:i]:
+                    for x in _all([b]):
+                        replace_in(x, lambda: cell_expr(cells[k], shift))
+                val_holder = d
+                if shift is not None:
+                    replace_in(val_holder, lambda: cell_expr(cells[k], shift))
+                store = blk[i + 1]
+                store.value = d.init if isinstance(d, C.CDecl) else d.value
+                rest = blk[i + 2:]
+                for b in rest:
+                    for x in _all([b]):
+                        replace_in(x, lambda: cell_expr(cells[k], 0))
+                blk[i:i + 2] = [store]
+                lr = loop_range(st)
+                # after the loop s holds the last cell: index with the loop variable at its last value
+                v, direction, first, last = lr
+                last_idx = rat_to_ast(last + affine(cells[k], v))
+                current = (last_idx, 0)
+                new_body.append(st)
+                j += 1
+                continue
+        if current is not None:
+            for x in _all([st]):
+                replace_in(x, lambda: cell_expr(current[0], current[1]))
+        new_body.append(st)
+        j += 1
+    f.body[:] = new_body
+    # drop the declaration of s when nothing mentions it any more
+    if not any(isinstance(x, ast.Name) and x.id == s for st in f.walk() for e in _stmt_exprs(st) for x in ast.walk(e)):
+        def drop(stmts):
+            for st in list(stmts):
+                if isinstance(st, C.CDecl) and st.name == s:
+                    stmts.remove(st)
+                elif isinstance(st, (C.CFor, C.CWhile)):
+                    drop(st.body)
+                elif isinstance(st, C.CIf):
+                    drop(st.body)
+                    drop(st.orelse)
+        drop(f.body)
+    return True
+
+
 def normalise(f, funcs, recorded_funcs, recorded_locals, global_ptrs=()):
     """all of the above on one function; returns the number of rewrites; raises Unsupported"""
     n = inline_void_helpers(f, funcs, recorded_funcs)
     n += pointer_for_loops(f)
+    n += countdown_while(f)
     n += countdown_loops(f)
     if recorded_locals:
+        C.c_inline_new_scalars(f, set(recorded_locals))
+        n += forward_scalars(f, recorded_locals)
         C.c_inline_new_scalars(f, set(recorded_locals))
     n += carve(f)
     w = Walk(f, recorded_locals, global_ptrs)
